@@ -25,16 +25,26 @@ EXTRA = {
         "text streams with newline='\\n' semantics; universal-newline translation of files is why '\\r' is excluded "
         "from well-formed data; file encoding is the platform's (UTF-8 here)",
         "no display format attached to any column",
+        "\"writing leaves the written tables unmodified\" has no theorem (model values are immutable): decided by the "
+        "harness alone, by a snapshot of every written table (header, dtypes, values, index, display formats, origin) "
+        "before and after",
+        "path versus stream: the model reads a file opened by path through the universal-newline translation "
+        "(univNL); csv_roundtrip_api proves both modes for WF tables ('\\r' excluded); the negative corpus holds a "
+        "'\\r' cell read both ways",
     ],
     "explanation": "Props/C01.lean csv_roundtrip: for every ext, separator, marker-like na_rep and every list of WF "
-                   "tables, readCsv (writeCsv ts) delivers exactly ts.map observe, no issue, normal end; wfCheck_sound "
-                   "ties the executable check to WF; example_bundle_wf is the non-vacuity witness.",
+                   "tables, readCsv (writeCsv ts) delivers exactly ts.map observe, no issue, normal end; "
+                   "csv_roundtrip_api: the same for path and stream and for every pair of sep arguments resolving to one "
+                   "character against any package default; wfCheck_sound ties the executable check to WF; "
+                   "example_bundle_wf is the non-vacuity witness.",
 }
 
 
 def snapshot(t):
     return (t.name, tuple(sorted(t.metadata.destinations)), bool(t.metadata.transposed), list(t.column_names),
-            list(t.units), [str(d) for d in t.df.dtypes], t.df.to_dict("list").__repr__(), list(t.df.index))
+            list(t.units), [str(d) for d in t.df.dtypes], t.df.to_dict("list").__repr__(), list(t.df.index),
+            [repr(getattr(c, "display_format", None)) for c in t.column_metadata.values()],
+            repr(t.metadata.origin))
 
 
 def impl_roundtrip(ts, sep, explicit, path_mode, scratch):
@@ -87,15 +97,16 @@ def run(tier, seed, model_ok, translator, search=False):
             sep = rng.choice(wc.SEPS)
             ts = [t for t, _ in wc.wf_bundle(rng, sep)]
             cases.append((i, sep, ts, rng.random() < 0.5, rng.random() < 0.3))
-        if thorough:
-            k = n
-            for kinds in itertools.chain.from_iterable(itertools.product(["text", "onoff", "datetime", "num", "int"], repeat=r)
-                                                       for r in (1, 2)):
+        # every kind tuple of length <= 2 (<= 3 thorough) x rows in {0, 1, 2} x orientation, deterministically
+        k = n
+        for kinds in itertools.chain.from_iterable(itertools.product(["text", "onoff", "datetime", "num", "int"], repeat=r)
+                                                   for r in ((0, 1, 2, 3) if thorough else (0, 1, 2))):
+            for n_row in (0, 1, 2):
                 for tr in (False, True):
-                    t = _table_of_kinds(rng, kinds, tr)
-                    if t is not None:
-                        cases.append((k, ";", [t], True, False))
-                        k += 1
+                    t, _ = wc.wf_table(rng, ";", tr, kinds=kinds, n_row=n_row)
+                    cases.append((k, ";", [t], k % 2 == 0, k % 3 == 0))
+                    out.count("enumerated-small-shapes")
+                    k += 1
         for (i, sep, ts, explicit, path_mode) in cases:
             before = [snapshot(t) for t in ts]
             text, res = impl_roundtrip(ts, sep, explicit, path_mode, scratch)
@@ -134,19 +145,22 @@ def run(tier, seed, model_ok, translator, search=False):
                 ext = rc.ext_tables(rows)
                 ops.append({"op": "write_csv", "tables": tv, "sep": sep, "na_rep": "-"})
                 pend.append(("write_csv", case, text))
-                ops.append({"op": "read_csv", "sep": sep, "text": text, "ext": ext})
+                ops.append({"op": "read_csv_path" if path_mode else "read_csv", "sep": sep, "text": text, "ext": ext})
                 pend.append(("read_csv", case, res))
                 ops.append({"op": "wf_check", "tables": tv, "sep": sep, "na_rep": "-", "ext": ext})
                 pend.append(("wf_check", case, None))
         # negative corpus: one clause of §3 violated each; model and code must agree on what is read back
         for name, sep, text in NEGATIVE:
-            res = _read_text(text, sep)
-            out.evaluations += 1
-            out.count("negative:" + name)
-            if model_ok:
-                rows = [l.rstrip("\n").split(sep) for l in io.StringIO(text)]
-                ops.append({"op": "read_csv", "sep": sep, "text": text, "ext": rc.ext_tables(rows)})
-                pend.append(("read_csv", {"negative": name, "text": text}, res))
+            for by_path in (False, True):
+                res = _read_text(text, sep, scratch if by_path else None)
+                out.evaluations += 1
+                out.count("negative:" + name + (":path" if by_path else ":stream"))
+                if model_ok:
+                    seen = text.replace("\r\n", "\n").replace("\r", "\n") if by_path else text
+                    rows = [l.rstrip("\n").split(sep) for l in io.StringIO(seen, newline="\n")]
+                    ops.append({"op": "read_csv_path" if by_path else "read_csv", "sep": sep, "text": text,
+                                "ext": rc.ext_tables(rows)})
+                    pend.append(("read_csv", {"negative": name, "text": text, "path": by_path}, res))
         if model_ok:
             inside = outside = 0
             for (what, case, impl), ans in zip(pend, common.run_model(ops)):
@@ -169,13 +183,20 @@ def run(tier, seed, model_ok, translator, search=False):
     return out
 
 
-def _read_text(text, sep):
+def _read_text(text, sep, scratch=None):
+    """read a text through the real read_csv: as a stream, or (scratch given) as a file opened by path"""
     import pdtable
     res = {"blocks": [], "issues": [], "ending": "exhausted"}
+    if scratch is None:
+        src = io.StringIO(text, newline="\n")
+    else:
+        src = os.path.join(scratch, "neg.csv")
+        with open(src, "w", newline="") as fh:
+            fh.write(text)
     try:
         with warnings.catch_warnings():
             warnings.simplefilter("ignore")
-            for bt, b in pdtable.read_csv(io.StringIO(text), sep=sep):
+            for bt, b in pdtable.read_csv(src, sep=sep):
                 first = b.metadata.origin.input_location.row if bt.name == "TABLE" else None
                 res["blocks"].append({"ty": bt.name, "first": first, "val": bc.canon_block(bt, b, "pdtable")})
     except Exception as e:  # noqa: BLE001
@@ -199,19 +220,15 @@ NEGATIVE = [
     ("first text cell marker", ";", "**t;\nall\na;b\ntext;-\n:x;2\ny;3\n\n"),
     ("text contains separator", ";", "**t;\nall\na;b\ntext;-\nx;y;2\n\n"),
     ("text contains newline", ";", "**t;\nall\na;b\ntext;-\nx\ny;2\n\n"),
+    ("text contains carriage return", ";", "**t;\nall\na;b\ntext;-\nx\ry;2\nz;3\n\n"),
+    ("lines end in CR LF", ";", "**t;\r\nall\r\na;b\r\ntext;-\r\nx;2\r\n\r\n"),
+    ("separator is a carriage return", "\r", "**t\r\nall\na\rb\n-\r-\n1\r2\n\n"),
+    ("text ends in NUL", ";", "**t;\nall\na;b\ntext;-\nx\x00;2\n\n"),
     ("transposed all-blank row", ";", "**t*;\nall\na;text;x;;y\nb;text;p;;q\n\n"),
     ("transposed name is a marker", ";", "**t*;\nall\na;-;1\nk:;-;2\n\n"),
     ("duplicate names", ";", "**t;\nall\na;a\n-;-\n1;2\n\n"),
     ("padded name", ";", "**t;\nall\n a ;b\n-;-\n1;2\n\n"),
 ]
-
-
-def _table_of_kinds(rng, kinds, transposed):
-    for _ in range(20):
-        t, k = wc.wf_table(rng, ";", transposed)
-        if tuple(k) == tuple(kinds):
-            return t
-    return None
 
 
 def replay(rep):
